@@ -28,7 +28,6 @@ import (
 	"strings"
 	"sync"
 	"sync/atomic"
-	"time"
 
 	"github.com/gopacket/gopacket"
 
@@ -305,6 +304,7 @@ type sweepRun struct {
 	seen    map[string]bool
 	tags    map[string]bool
 	nontriv bool
+	dirty   gopacket.SerializeBuffer
 }
 
 func (r *sweepRun) fail(clause, site, kind, rest string) {
@@ -372,7 +372,6 @@ func (sweep) Run(c Case) Result {
 	return sweep{}.runGuarded(c)
 }
 
-func sweepLimit(tier string) time.Duration { return 4 * time.Second }
 
 func sweepGoid() int64 {
 	var b [64]byte
